@@ -53,7 +53,9 @@ pub fn run(seed: u64, ntraces: usize) {
         let mut forced: Vec<(u64, u64)> = vec![];     // (op kind, amount / limit)
         if t % 3 == 0 && cur_token.is_some() { forced = if t % 6 == 0 { vec![(2, 40), (1, 40), (2, 8), (0, 40), (0, 8), (0, 1)] } else { vec![(1, 50), (2, 40), (0, 40), (2, 8), (1, 40), (1, 8)] }; }
         // directed role schedule (every third trace): propose, accept, hand back, replay the accept; (kind, 10*caller + target) over users [s, op, m, f, x]
-        if t % 3 == 1 && operator.is_some() { forced = vec![(7, 14), (8, 41), (6, 41), (8, 41), (7, 13), (7, 14), (8, 31), (8, 41), (8, 41)]; }
+        if t % 3 == 1 && operator.is_some() { forced = vec![(7, 14), (8, 41), (6, 41), (8, 41), (7, 13), (7, 14), (8, 31), (8, 41), (8, 41),
+                                                           // a proposal of one role is not an offer of the other: operatorship proposed, mintership 'accepted' (refused), and the reverse
+                                                           (7, 34), (11, 43), (8, 43), (10, 23), (8, 32), (11, 32)]; }
         // directed: the operator takes the flow-limiter role away from the service, which then tries to move the limit (kinds 3/4/5: 10*caller + target)
         if t % 3 == 2 && operator.is_some() && cur_token.is_some() { forced = vec![(2, 30), (4, 10), (2, 1000), (0, 500), (0, 30), (3, 13), (2, 1000), (5, 13), (2, 7)]; }
         // directed (native managers): issuance, then the minter calls deployInterchainToken again naming someone else; or a failed issuance retried by the minter
